@@ -441,7 +441,10 @@ def _cases(chunk):
                 v[k] = float("nan")
             if i % 3 == 0:
                 v[0] = float("nan")
-            yield {"kind": "minmax", "v": v, "fn": rng.choice(["MIN", "MAX"]),
+            # ... and, since round W/X, every other aggregate that is a symmetric function of its values (all but
+            # ARGMIN / ARGMAX): whatever the NaN policy, the answer cannot depend on WHERE the NaN sits
+            yield {"kind": "minmax", "v": v, "fn": rng.choice(["MIN", "MAX"] if i % 2 else
+                                                               ["SUM", "AVG", "VAR", "STD", "MSE", "RMSE", "MAD", "MEDIAN"]),
                    "route": rng.choice(["expr", "expr", "opobj", "sub"])}
     elif kind == "divzero":
         # feature / feature where the denominator holds zeros (also 0/0): the value there is undefined and not judged,
@@ -1016,7 +1019,7 @@ def run_minmax(case, ctx):
         elif route == "sub":
             got = M.call(tr.operate, "%s{a*b}" % fn)
         else:
-            got = M.call(tr.operate, getattr(Operator, fn), "a")
+            got = M.call(tr.operate, getattr(Operator, {"AVG": "AVERAGER", "VAR": "VARIANCE", "STD": "STDDEV"}.get(fn, fn)), "a")
         ctx.monitor("minmax.order_independent")
         if not M.is_raised(got):
             try:
@@ -1026,12 +1029,12 @@ def run_minmax(case, ctx):
                 pass
         answers.append(got)
     sig = ("minmax", fn, route, tuple(map(repr, v)))
-    cls = ["nan_in_minmax", "fn:" + fn]
+    cls = ["nan_in_minmax" if fn in ("MIN", "MAX") else "nan_in_symmetric_aggregate", "fn:" + fn]
     first = answers[0]
     for r, a in enumerate(answers):
         same = (M.is_raised(a) and M.is_raised(first)) or \
                (not M.is_raised(a) and not M.is_raised(first) and not isinstance(a, list) and not isinstance(first, list)
-                and M.feq(a, first, 0, 0))
+                and (M.feq(a, first, 0, 0) if fn in ("MIN", "MAX") else M.feq(a, first, 1e-9, 1e-12)))
         if not same:
             return violated({"what": "%s over values that include NaN depends on the order of the observations" % fn,
                              "route": route, "values": v, "answer_for_each_rotation": answers}, sig, True, cls)
@@ -1090,7 +1093,7 @@ def classify(case, witness):
 
 # floors for the call-history workloads added in session 3 (a run in which they were silently skipped is inconclusive)
 _floors_base = floors
-_FLOORS_EXTRA = {'classes': {'nan_in_minmax': 500, 'division_by_a_feature_holding_zeros': 500, 'repeated_function_term': 1000, 'externals_dictionary': 500, 'realistic_magnitudes': 800, 'related_track_must_stay_untouched': 1000,
+_FLOORS_EXTRA = {'classes': {'nan_in_minmax': 200, 'nan_in_symmetric_aggregate': 150, 'division_by_a_feature_holding_zeros': 500, 'repeated_function_term': 1000, 'externals_dictionary': 500, 'realistic_magnitudes': 800, 'related_track_must_stay_untouched': 1000,
                              'less_usual_feature_names': 5000, 'copy_taken_after_the_first_statement': 800, 'track_of_hundreds_of_observations': 300}}
 
 
